@@ -6,7 +6,7 @@
 From Coq Require Import ZArith String List Bool Arith Lia.
 From J2O Require Import PyLib Tensor Graph Redirect Preserve Reshape ElemCommute ChainSim ReshapePairPass ChainFacts C02Opt ElemSem
   ElemBroadcast TransposePairPass TransposeRegion TransposeAddForestPass TransposeAddForestSound TransposeReducePass
-  TransposeReduceSound IdReshapePass OrphanPass OptGraph PropagateShapes SwishPass DropoutPass RefreshSound.
+  TransposeReduceSound IdReshapePass OrphanPass OptGraph PropagateShapes SwishPass DropoutPass RefreshSound DcePass.
 From J2O Require Annot Onnx.
 From J2OGen Require GenShapes.
 From J2OGen Require Import GenCast GenOpt GenOptPasses.
@@ -149,11 +149,11 @@ Definition VERIFIED_RUNNERS : list string :=
   ["remove_redundant_transpose_reduce_ir"; "remove_redundant_transpose_add_forests_ir"; "remove_redundant_transpose_pairs_ir";
    "remove_redundant_reshape_pairs_ir"; "remove_identity_reshapes_ir"; "remove_orphan_transposes_ir";
    "propagate_unary_shapes_ir"; "prune_unused_graph_inputs_ir"; "rewrite_mul_sigmoid_as_swish_ir";
-   "inline_dropout_training_mode_constants_ir"; "propagate_elementwise_shapes_ir"]%string.
+   "inline_dropout_training_mode_constants_ir"; "propagate_elementwise_shapes_ir"; "remove_dead_nodes_ir"]%string.
 Definition UNMODELLED_RUNNERS : list string :=
   ["_run_name_fix_pass"; "_run_common_subexpression_elimination_pass";
    "_run_lift_constants_to_initializers_pass"; "rewrite_mul_rsqrt_as_div_ir";
-   "remove_redundant_casts_ir"; "remove_dead_nodes_ir"]%string.
+   "remove_redundant_casts_ir"]%string.
 (* exactly the functions of the translated table that are not verified models (a pass added to, or removed from,
    _OPTIMIZER_PASSES breaks this) *)
 Lemma unmodelled_exact :
@@ -1032,6 +1032,72 @@ Section PSound.
     - destruct (drop_cleanup_good e0 o g1 (d :: dr) e1 Hg1) as (Ha & Hx & o' & Hr & Ho). exists e1, o'. auto.
   Qed.
 
+  (* ================================================================ remove_dead_nodes_ir (restricted: see DcePass.v) *)
+  Definition o_pass_dce (g : ograph) : ograph := o_of_graph g (dce_pass (o_graph g)).
+
+  Lemma filter_remove_mid (n : node) : forall pre post, ~ In n pre -> ~ In n post ->
+    filter (fun m => negb (node_eqb m n)) (pre ++ n :: post) = pre ++ post.
+  Proof.
+    intros pre post Hp Hq. rewrite filter_app. cbn [filter]. rewrite node_eqb_refl. cbn [negb].
+    assert (Hall : forall l, ~ In n l -> filter (fun m => negb (node_eqb m n)) l = l).
+    { induction l as [|m l IH]; intro H; [reflexivity|]. cbn [filter]. destruct (node_eqb m n) eqn:E.
+      - apply node_eqb_eq in E. subst m. exfalso. apply H. now left.
+      - cbn [negb]. f_equal. apply IH. intro Hin. apply H. now right. }
+    now rewrite (Hall pre Hp), (Hall post Hq).
+  Qed.
+
+  Lemma dce_go_ok outs (e : env V) : forall todo_rev kept ef0, Forall (fun n => single_out n = true) (rev todo_rev ++ kept) ->
+    ssa V (rev todo_rev ++ kept) e -> evalg (rev todo_rev ++ kept) e = Some ef0 ->
+    ssa V (dce_go outs todo_rev kept) e /\
+    (exists ef', evalg (dce_go outs todo_rev kept) e = Some ef' /\ forall y a', ef' y = Some a' -> ef0 y = Some a') /\
+    refines V teq sem (mkGraph (rev todo_rev ++ kept) outs) (mkGraph (dce_go outs todo_rev kept) outs) e.
+  Proof.
+    induction todo_rev as [|n r IH]; intros kept ef0 Hsingle Hssa Hev; cbn [dce_go].
+    - cbn [rev app] in *. split; [exact Hssa|]. split; [eauto|]. apply (refines_refl V teq (@teq_refl A) sem).
+    - cbn [rev] in *. rewrite <- app_assoc in *. cbn [app] in *.
+      destruct (forallb (fun o0 => negb (mentioned (rev r ++ kept) outs n o0)) (n_outs n)) eqn:Edead.
+      + (* n goes *)
+        assert (Hn_in : In n (rev r ++ n :: kept)) by (apply in_or_app; right; now left).
+        assert (Hout : exists y, n_outs n = [y]).
+        { rewrite Forall_forall in Hsingle. specialize (Hsingle n Hn_in). unfold single_out in Hsingle. destruct (n_outs n) as [|y [|]]; try discriminate. eauto. }
+        destruct Hout as [y Hy].
+        assert (Hnn : ~ In n (rev r) /\ ~ In n kept).
+        { pose proof (proj1 Hssa) as Hnd. unfold defs in Hnd. rewrite flat_map_app in Hnd. cbn [flat_map] in Hnd. rewrite Hy in Hnd. cbn [app] in Hnd.
+          apply NoDup_remove_2 in Hnd. split; intro Hin; apply Hnd; apply in_or_app; [left | right]; apply in_flat_map; exists n; (split; [exact Hin | rewrite Hy; now left]). }
+        destruct Hnn as [Hnr Hnk].
+        destruct (dead_filter_ok (fun m => node_eqb m n) (rev r ++ n :: kept) outs e ef0 Hssa Hev) as (Hssa2 & (ef2 & Hev2 & Hrel2) & Href2).
+        { intros m Hm Hdm o0 Ho0. apply node_eqb_eq in Hdm. subst m. rewrite forallb_forall in Edead. specialize (Edead o0 Ho0).
+          apply negb_true_iff in Edead. destruct (mentioned_false _ _ _ _ Edead) as [H1 H2]. split; [exact H1|].
+          intros m Hm2 Hin. apply in_app_or in Hm2 as [Hm2|[<-|Hm2]].
+          - apply (H2 m); auto. apply in_or_app. now left.
+          - exact (use_ne_def A sem _ e ef0 n o0 o0 Hssa Hev Hn_in Hin Ho0 eq_refl).
+          - apply (H2 m); auto. apply in_or_app. now right. }
+        rewrite (filter_remove_mid n (rev r) kept Hnr Hnk) in *.
+        assert (Hsingle2 : Forall (fun m => single_out m = true) (rev r ++ kept)).
+        { rewrite Forall_forall in *. intros m Hm. apply Hsingle. apply in_app_or in Hm as [Hm|Hm]; apply in_or_app; [now left | right; now right]. }
+        destruct (IH kept ef2 Hsingle2 Hssa2 Hev2) as (Hssa3 & (ef3 & Hev3 & Hrel3) & Href3).
+        split; [exact Hssa3|]. split; [exists ef3; split; auto|].
+        eapply (refines_trans V teq (@teq_trans A) sem); eauto.
+      + (* n stays *)
+        change (rev r ++ n :: kept) with (rev r ++ (n :: kept)) in *. exact (IH (n :: kept) ef0 Hsingle Hssa Hev).
+  Qed.
+
+  Lemma pass_ok_dce : pass_ok_on V teq sem ograph o_graph padm pext (fun g => dce_guard (o_graph g) = true) o_pass_dce.
+  Proof.
+    intros g e0 e Hguard Hadm Hext o Hrun. unfold o_pass_dce, dce_pass. rewrite Hguard.
+    destruct (run_eval _ _ _ Hrun) as [ef Hev]. cbn [o_graph g_nodes g_outputs] in *.
+    assert (Hs : Forall (fun n => single_out n = true) (rev (rev (o_nodes g)) ++ [])).
+    { rewrite rev_involutive, app_nil_r. unfold dce_guard in Hguard. cbn [g_nodes] in Hguard. apply Forall_forall. rewrite forallb_forall in Hguard. exact Hguard. }
+    destruct (dce_go_ok (o_outputs g) e (rev (o_nodes g)) [] ef Hs) as (Hssa2 & (ef2 & Hev2 & Hrel2) & Href2).
+    { rewrite rev_involutive, app_nil_r. exact (pa_ssa _ _ Hadm). }
+    { rewrite rev_involutive, app_nil_r. exact Hev. }
+    rewrite rev_involutive, app_nil_r in Href2.
+    destruct (Href2 o Hrun) as (o' & Hrun' & Ho').
+    exists e, o'. split; [apply (pext_const g); [reflexivity | reflexivity | exact Hext]|]. split; [|split; [exact Hrun' | exact Ho']].
+    unfold o_of_graph. cbn [g_nodes g_outputs]. apply (padm_reframe g e ef _ _ Hadm Hev Hssa2).
+    intros ef' y a' Hev' Hy. rewrite Hev2 in Hev'. injection Hev' as <-. exists a'. split; [exact (Hrel2 y a' Hy) | apply teq_refl].
+  Qed.
+
   Lemma pass_ok_id : pass_ok_on V teq sem ograph o_graph padm pext (fun _ => True) (fun g => g).
   Proof. intros g e0 e _ Hadm Hext o Hrun. exists e, o. split; [exact Hext|]. split; [exact Hadm|]. split; [exact Hrun|]. apply (Forall2_veq_refl V teq (@teq_refl A)). Qed.
 
@@ -1089,6 +1155,7 @@ Section PSound.
     else if String.eqb runner "propagate_elementwise_shapes_ir" then o_pass_elem
     else if String.eqb runner "rewrite_mul_sigmoid_as_swish_ir" then o_pass_swish
     else if String.eqb runner "inline_dropout_training_mode_constants_ir" then o_pass_dropout
+    else if String.eqb runner "remove_dead_nodes_ir" then o_pass_dce
     (* prune_unused_graph_inputs_ir rewrites graph.inputs only (the INTERFACE: property C05, Interface.prune); nodes, graph
        outputs, initializers and annotations — all of [ograph] — are untouched, and the environment of a run is a function
        of names, so dropping an unused input does not change any run *)
@@ -1099,6 +1166,7 @@ Section PSound.
   Definition guard_fn (runner : string) (g : ograph) : Prop :=
     if String.eqb runner "remove_redundant_transpose_pairs_ir" then kinds_along fuel (projT g) = true
     else if String.eqb runner "remove_redundant_transpose_reduce_ir" then axes_attr_along fuel (projR g) = true
+    else if String.eqb runner "remove_dead_nodes_ir" then dce_guard (o_graph g) = true
     else True.
 
   Definition top_runners : list string := map (fun r => fst (snd r)) OPTIMIZER_PASS_TABLE.
@@ -1114,7 +1182,7 @@ Section PSound.
       repeat (destruct Hr as [<-|Hr]; [exact Hok|]). destruct Hr. }
     unfold top_runners, OPTIMIZER_PASS_TABLE in Hin. simpl in Hin.
     repeat (destruct Hin as [<-|Hin];
-            [first [ exact pass_ok_R | exact pass_ok_F | exact pass_ok_T | exact pass_ok_P | exact pass_ok_I | exact (pass_ok_O fuel) | exact pass_ok_unary | exact pass_ok_id | exact pass_ok_swish | exact pass_ok_dropout | exact pass_ok_elem
+            [first [ exact pass_ok_R | exact pass_ok_F | exact pass_ok_T | exact pass_ok_P | exact pass_ok_I | exact (pass_ok_O fuel) | exact pass_ok_unary | exact pass_ok_id | exact pass_ok_swish | exact pass_ok_dropout | exact pass_ok_elem | exact pass_ok_dce
                    | apply Hu; unfold UNMODELLED_RUNNERS; simpl; tauto ]|]).
     destruct Hin.
   Qed.
